@@ -70,6 +70,19 @@ def shared_shuffles():
                 yield "N0=const %d %s ; N1=%s ; N2=cogroup N0 N1 ; OUT N2" % (nsh, rows, a)
 
 
+def two_repartitions():
+    """one slice repartitioned twice in one program, by different functions and to the same shard count (always run in full):
+    each consumer must see the placement of its own function"""
+    rows = "1:1 2:2 1:3 4:4 2:5 7:6 1:7 3:8 2:9 5:10 6:11 8:12"
+    for nsh in (2, 3):
+        for a, b in (("byval", "zero"), ("zero", "byval")):
+            # the WriterFuncs observe, shard by shard, where each Repartition put the rows
+            yield ("N0=const %d %s ; N1=repartition N0 %s ; N2=writer N1 ; N3=repartition N0 %s ; N4=writer N3 ; "
+                   "N5=cogroup N2 N4 ; OUT N5" % (nsh, rows, a, b))
+            yield ("N0=const %d %s ; N1=repartition N0 %s ; N2=map N1 inc ; N3=writer N2 ; N4=repartition N0 %s ; N5=writer N4 ; "
+                   "N6=reshuffle N5 ; N7=cogroup N3 N6 ; OUT N7" % (nsh, rows, a, b))
+
+
 def direct_and_shuffled():
     """a (materialised or pipelined) slice consumed both without a shuffle and through a shuffle into 1..3 partitions,
     compiled in either order (always run in full)"""
@@ -88,7 +101,7 @@ def gen(r, tier):
     ss = list(shared_shuffles())
     if tier == "quick":
         ss = [c for c in ss if r.below(3) == 0]
-    for p in ss + list(direct_and_shuffled()):
+    for p in ss + list(direct_and_shuffled()) + list(two_repartitions()):
         yield "local CH%d ;; %s" % (r.choice([2, 128]), p)
     # bounded-exhaustive part: all chains of depth 1 (and 2 in the thorough tier; a sample of them in the quick tier)
     for p in exhaustive(1):
